@@ -23,8 +23,12 @@ BOUNDS = dict(
                     "(d) incomplete lists of whole planes: every non-empty symbolic subset of the planes of a 6-mesh (3 axis placements, 6x2x1), and for N=10, 12 the union of two "
                     "symbolic sub-meshes d1,d2|N minus one symbolic plane (2u5, 3u4, mesh without its finest planes, mixed denominators)",
                perturbation=f"every coordinate = double(m/N) + delta, delta symbolic in [-{DELTA},{DELTA}] (N<=50; 1e-10 for N>50)"),
-    thorough=dict(mesh="as quick plus N x1x1 / 1xNx1 / 1x1xN for N in 7,8,9,12,16,25,50,97,100 (seeded order; one symbolic removal for N<=25 and N=100) and <=36 points; <=5 points (selections); <=6 points (all orderings)",
-                  list="as quick", perturbation="as quick"))
+    thorough=dict(mesh="as quick plus: all N_i<=6 meshes up to 36 points; N x1x1 / 1xNx1 / 1x1xN for N = 7..12 (prime and composite) with every single symbolic edit; 14 two- and three-dimensional meshes "
+                       "with N_i up to 12 (7x2x1, 1x11x2, 9x2x2, 12x2x1, 5x7x1, 2x3x7, ...) with symbolic removal / swap / replacement; N in 16,25,50,97,100 (seeded order, one symbolic removal for N<=25 and N=100); "
+                       "<=5 points (selections); <=6 points (all orderings)",
+                  list="as quick plus: two symbolic edits at once (remove one entry then duplicate another at any position; swap two positions then remove one) on meshes up to 8 points; "
+                       "coordinates outside [0,1): the centred convention [-1/2,1/2) (fixed order, one symbolic removal, one symbolic replacement) and one symbolic entry moved by a symbolic lattice vector in {-1,0,1}^3; "
+                       "whole planes along two axes at once (product of two symbolic subsets of planes: 3x4x1, 6x2x1, 1x6x3, 4x1x6, 5x5x1, 6x4x1, 2x6x2)", perturbation="as quick (every coordinate of every point simultaneously)"))
 EXPLANATION = ("The real get_mp_grid / grid_from_kpoints / is_round run on a list of k-points whose composition and order are finite-choice symbolic values "
                "(z3 integers: permutation, selection with repetition, one symbolic edit of a base ordering, or a symbolic subset of mesh planes) and whose coordinates carry a symbolic "
                "perturbation |delta|<=4e-9; rounding (np.round) and Fraction.limit_denominator are evaluated per alternative with z3 guards on delta. "
@@ -38,7 +42,7 @@ ASSUMPTIONS = ["k-point coordinates lie within 4e-9 of the exact mesh values m/N
                "assertion is commented out in the code and the property does not require rejection there)"]
 OUTSIDE = ["truncation (astype(int)) of values within 1e-12 of an integer (real-number and IEEE evaluation of k*N may land on different sides)", "all nk! orderings for meshes above the stated point counts (covered there by one symbolic edit of seeded base orderings only)",
            "IEEE rounding inside x*1e8 / rint / limit_denominator (real-number semantics; doubles taken exactly)",
-           "denominators above 100 (not supported by the code)", "coordinates outside [0,1) by more than the perturbation"]
+           "denominators above 100 (not supported by the code)", "lists that contain the same point twice written in different unit cells (k and k+1): the property speaks of coordinates reduced to [0,1); shifted coordinates are covered only for lists without such pairs"]
 STUBS = ["np.round on symbolic c+delta: finite set of candidate roundings with exact z3 guards (round-half-even), kept as a Lifted value (get_mp_grid) or forked (grid_from_kpoints)",
          "Fraction(x).limit_denominator(M) on symbolic x: the real limit_denominator is run on the interval midpoint, and the answer F is accepted only "
          "after the solver/interval check that x lies strictly between the midpoints to F's Farey neighbours of order M (contract: closest fraction); "
@@ -253,12 +257,22 @@ def build_list(model, mesh, seed, L=None, base="shuffled", first=None):
         return (lambda: [int(c[0].concretize()) for c in ch]), sum((c[1] for c in ch), []) + ([ch[0][2] == first] if first is not None else [])
     b = base_order(mesh, seed, base)
     n = len(b)
-    if model in ("planes", "union"):
+    if model in ("planes", "union", "planes2"):
         # incomplete lists made of whole planes along the finest axis (seeded order inside): "planes" keeps an arbitrary symbolic non-empty subset of the planes;
         # "union" keeps the planes of two sub-meshes d1, d2 | N (symbolic pair of divisors: union of two coarser meshes, or a mesh without its finest planes) minus one symbolic plane
         ax = int(np.argmax(mesh))
         N = mesh[ax]
         pts = mesh_points(mesh)
+        if model == "planes2":                # whole planes along the two finest axes at once: the list is the product of two symbolic non-empty subsets of planes
+            a1, a2 = [int(x) for x in np.argsort(mesh, kind="stable")[::-1][:2]]
+            k1 = [sym_choice(f"keepA{j}", [0, 1]) for j in range(mesh[a1])]
+            k2 = [sym_choice(f"keepB{j}", [0, 1]) for j in range(mesh[a2])]
+            ass = sum((k[1] for k in k1 + k2), []) + [z3.Or(*[k[2] == 1 for k in k1]), z3.Or(*[k[2] == 1 for k in k2])]
+            def make():
+                s1 = {j for j in range(mesh[a1]) if int(k1[j][0].concretize())}
+                s2 = {j for j in range(mesh[a2]) if int(k2[j][0].concretize())}
+                return [p for p in b if pts[p][a1] in s1 and pts[p][a2] in s2]
+            return make, ass
         if model == "planes":
             keep = [sym_choice(f"keep{j}", [0, 1]) for j in range(N)]
             ass = sum((k[1] for k in keep), []) + [z3.Or(*[k[2] == 1 for k in keep])]
@@ -307,6 +321,31 @@ def build_list(model, mesh, seed, L=None, base="shuffled", first=None):
             c[ii] = mm
             return c
         return make, ai + am
+    if model == "drop_dup":                   # two edits: one symbolic entry removed, then one symbolic remaining entry duplicated at a symbolic position
+        j, aj, pj = sym_choice("ej", list(range(n - 1)))
+        k2, ak, pk = sym_choice("ek", list(range(n)))
+        def make():
+            ii, jj, kk = int(i.concretize()), int(j.concretize()), int(k2.concretize())
+            c = b[:ii] + b[ii + 1:]
+            c.insert(kk, c[jj])
+            return c
+        return make, ai + aj + ak
+    if model == "swap_drop":                  # two edits: two symbolic positions exchanged, then one symbolic position removed
+        j, aj, pj = sym_choice("ej", list(range(n)))
+        k2, ak, pk = sym_choice("ek", list(range(n)))
+        def make():
+            ii, jj, kk = int(i.concretize()), int(j.concretize()), int(k2.concretize())
+            c = list(b)
+            c[ii], c[jj] = c[jj], c[ii]
+            return c[:kk] + c[kk + 1:]
+        return make, ai + aj + ak + [pi < pj]
+    if model == "shift":                      # complete list; one symbolic entry written in another unit cell (symbolic integer shift in {-1,0,1}^3)
+        sh = [sym_choice(f"sh{a}", [-1, 0, 1]) for a in range(3)]
+        def make():
+            ii = int(i.concretize())
+            v = [int(x[0].concretize()) for x in sh]
+            return list(b), {ii: v}
+        return make, ai + sum((x[1] for x in sh), [])
     raise ValueError(model)
 
 
@@ -344,12 +383,12 @@ class KArr(SymArray):
         return super().astype(dtype, *a, **k)
 
 
-def sym_kpoints(idx, mesh, dl):
+def sym_kpoints(idx, mesh, dl, shifts=None):
     pts = mesh_points(mesh)
     k = np.empty((len(idx), 3), dtype=object)
     for j, p in enumerate(idx):
         for a in range(3):
-            k[j, a] = SymC.of(pts[p][a] / mesh[a]) + dl[j, a]
+            k[j, a] = SymC.of(pts[p][a] / mesh[a] + (shifts[j][a] if shifts and j in shifts else 0)) + dl[j, a]
     return k.view(KArr)
 
 
@@ -410,13 +449,13 @@ def delta_for(mesh):
     return DELTA if max(mesh) <= 50 else 1e-10
 
 
-def case_mesh(rec, fn, mesh, model, seed, L=None, base="shuffled", first=None, grid="mesh"):
-    rec.case = f"{fn}[grid={grid}] mesh={mesh} {model} L={L} first={first}"
+def case_mesh(rec, fn, mesh, model, seed, L=None, base="shuffled", first=None, grid="mesh", conv="unit"):
+    rec.case = f"{fn}[grid={grid}] mesh={mesh} {model} L={L} first={first}" + ("" if conv == "unit" else f" coordinates {conv}")
     proxy = Np23(lifted=(fn == "get_mp_grid"))
     shadow([U], proxy, Fraction=FracStub, warnings=NoWarn)
     make, ass = build_list(model, mesh, seed, L=L, base=base, first=first)
     nk = int(np.prod(mesh))
-    Lmax = {"perm": nk, "select": L, "fixed": nk, "drop": nk - 1, "swap": nk, "dup": nk + 1, "repl": nk, "planes": nk, "union": nk}[model]
+    Lmax = {"perm": nk, "select": L, "fixed": nk, "drop": nk - 1, "swap": nk, "dup": nk + 1, "repl": nk, "planes": nk, "union": nk, "planes2": nk, "drop_dup": nk, "swap_drop": nk - 1, "shift": nk}[model]
     dmax = delta_for(mesh)
     dl = symvec("d", (Lmax, 3), lo=-dmax, hi=dmax)
     ass = list(ass) + [z for d in dl.flat for z in (d.zreal() >= -dmax, d.zreal() <= dmax)]
@@ -430,7 +469,11 @@ def case_mesh(rec, fn, mesh, model, seed, L=None, base="shuffled", first=None, g
             rec.note("a job with >=3 counterexamples is not explored further")
             raise Assume("job already has counterexamples")
         idx = make()
-        k = sym_kpoints(idx, mesh, dl)
+        idx, shifts = idx if isinstance(idx, tuple) else (idx, None)
+        if conv == "centred":                  # the same points written in [-1/2, 1/2)
+            P = mesh_points(mesh)
+            shifts = {j: [-1 if 2 * P[p][a] >= mesh[a] else 0 for a in range(3)] for j, p in enumerate(idx)}
+        k = sym_kpoints(idx, mesh, dl, shifts)
         rec.witness = lambda env, idx=idx, k=k: dict(fn=fn, mesh=list(mesh), idx=idx, grid=g, kpoints=env.val(k))
         try:
             if fn == "get_mp_grid":
@@ -450,6 +493,8 @@ def case_mesh(rec, fn, mesh, model, seed, L=None, base="shuffled", first=None, g
     # path budget: the list model alone determines the number of paths on the code as it is (measured ratio 1.0; up to 12 for the sub-grid cases, which fork on round(0.5+-)); a changed code that forks on
     # every coordinate must end as 'budget exhausted' (inconclusive, never success) instead of running for hours
     expected = _weight(dict(mesh=mesh, model=model, L=L, first=first)) // (10 + nk)
+    if conv == "centred" and fn == "grid_from_kpoints":
+        expected *= 2                            # (no extra forks expected; margin for round(-0.5-) ties of sub-grid style cases)
     rec.explore(body, ass, maxpaths=(40 * expected + 60) if isinstance(grid, tuple) else (3 * expected) // 2 + 20)
 
 
@@ -488,6 +533,7 @@ def _weight(j):
     mo = j["model"]
     p = {"perm": math.factorial(nk) // (nk if j.get("first") is not None else 1), "select": nk ** (j.get("L") or 0) // (nk if j.get("first") is not None else 1), "drop": nk,
          "dup": nk * (nk + 1), "repl": nk * nk, "swap": nk * (nk - 1) // 2, "fixed": 1,
+         "planes2": 2 ** sum(sorted(j["mesh"])[1:]), "drop_dup": nk * (nk - 1) * nk, "swap_drop": nk * nk * (nk - 1) // 2, "shift": 27 * nk,
          "planes": 2 ** max(j["mesh"]) - 1, "union": len(divisors(max(j["mesh"]))) * (len(divisors(max(j["mesh"]))) - 1) // 2 * (max(j["mesh"]) + 1)}[mo]
     return p * (10 + nk)
 
@@ -548,6 +594,38 @@ def jobs_for(tier):
         for fn, grid in fns:
             if grid is None or mesh in [(10, 1, 1), (12, 1, 1)]:
                 add(fn, grid, mesh, "union")
+    if not q:
+        # larger meshes, prime and composite N up to 12
+        for N in (7, 8, 9, 10, 11, 12):
+            for ax in range(3):
+                mesh = tuple(N if a == ax else 1 for a in range(3))
+                for fn, grid in fns:
+                    for mo in ("drop", "repl", "dup") + (("swap",) if ax == 0 else ()):
+                        add(fn, grid, mesh, mo)
+        for mesh in [(7, 2, 1), (1, 11, 2), (8, 3, 1), (9, 2, 2), (12, 2, 1), (10, 3, 1), (5, 7, 1), (2, 3, 7), (11, 3, 1), (12, 1, 3), (4, 9, 1), (3, 4, 3), (6, 6, 1), (2, 2, 9)]:
+            for fn, grid in fns:
+                add(fn, grid, mesh, "drop")
+                add(fn, grid, mesh, "swap", base="reversed")
+                if int(np.prod(mesh)) <= 24:
+                    add(fn, grid, mesh, "repl")
+        # two symbolic edits at once
+        for mesh in [(2, 2, 1), (3, 2, 1), (1, 1, 5), (1, 7, 1), (2, 2, 2), (4, 2, 1), (3, 1, 3)]:
+            for fn, grid in fns:
+                add(fn, grid, mesh, "drop_dup")
+                add(fn, grid, mesh, "swap_drop")
+        # coordinates outside [0,1): centred convention and one entry in a symbolic neighbouring cell
+        for mesh in [(2, 2, 1), (3, 2, 1), (1, 5, 2), (4, 3, 1), (6, 1, 1), (3, 3, 2), (1, 1, 7), (2, 4, 3)]:
+            for fn, grid in fns:
+                add(fn, grid, mesh, "shift")
+                add(fn, grid, mesh, "drop", conv="centred")
+                add(fn, grid, mesh, "fixed", conv="centred")
+                if int(np.prod(mesh)) <= 12:
+                    add(fn, grid, mesh, "repl", conv="centred")
+        # whole planes along two axes at once
+        for mesh in [(3, 4, 1), (6, 2, 1), (1, 6, 3), (4, 1, 6), (5, 5, 1), (6, 4, 1), (2, 6, 2)]:
+            for fn, grid in fns:
+                if grid is None or mesh in [(3, 4, 1), (6, 4, 1)]:
+                    add(fn, grid, mesh, "planes2")
     # sub-grid selection: a finer mesh is given, the coarser grid is requested
     for mesh, grid in [((4, 1, 1), (2, 1, 1)), ((2, 4, 1), (2, 2, 1)), ((6, 1, 1), (3, 1, 1)), ((1, 6, 1), (1, 2, 1))]:
         add("grid_from_kpoints", grid, mesh, "perm" if np.prod(mesh) <= 4 else "repl")
@@ -566,7 +644,7 @@ def jobs_for(tier):
 def cases(tier, seed):
     out = [Case("stub validation", case_stub_validation, dict(seed=seed))]
     jobs = sorted(jobs_for(tier), key=_weight, reverse=True)
-    ngroups = 36 if tier == "quick" else 96
+    ngroups = 36 if tier == "quick" else 160
     groups = [[0, []] for _ in range(ngroups)]
     for j in jobs:                                   # greedy balancing by estimated cost
         g = min(groups, key=lambda g: g[0])
@@ -575,7 +653,7 @@ def cases(tier, seed):
     for i, (w, js) in enumerate(groups):
         if js:
             fmt = lambda j: f"{j['fn']}[grid={j['grid']}] mesh={j['mesh']} {j['model']}" + "".join(f" {k}={j[k]}" for k in ("L", "first") if j.get(k) is not None)
-            out.append(Case(f"group {i}: " + "; ".join(fmt(j) for j in js), case_group, dict(jobs=js, seed=seed), timeout=3000))
+            out.append(Case(f"group {i}: " + "; ".join(fmt(j) for j in js), case_group, dict(jobs=js, seed=seed), timeout=6000))
     return out
 
 
